@@ -200,6 +200,61 @@ func c22GenPair(r *vRand) c22Case {
 	return cs
 }
 
+// the literal edge names of the acceptance rule: dot names, length limits, and every single
+// byte outside [A-Za-z0-9._-] alone and inside a name
+func c22EdgeNames() []string {
+	out := []string{".", "..", "...", "....", "a..b", ".a", "a.", "..a", "a..", "-", "_", "-.", "._", "0", "1", "00",
+		strings.Repeat("a", 248), strings.Repeat("a", 249), strings.Repeat("a", 250), strings.Repeat(".", 249), strings.Repeat(".", 250), strings.Repeat("a", 1000)}
+	for b := 0; b < 256; b++ {
+		c := byte(b)
+		if c >= 'a' && c <= 'z' || c >= 'A' && c <= 'Z' || c >= '0' && c <= '9' || c == '.' || c == '_' || c == '-' {
+			continue
+		}
+		out = append(out, string([]byte{c}), "a"+string([]byte{c})+"b", string([]byte{c})+"a", "a"+string([]byte{c}), "a"+string([]byte{c, '.', '.', c})+"b")
+	}
+	return out
+}
+
+// partners that a name could collide with if it were accepted: what path.Clean makes of it,
+// its path elements, small numbers (partition directories), names sharing a prefix
+func c22Partners(name string) []string {
+	seen := map[string]bool{}
+	var out []string
+	add := func(n string) {
+		if n != "" && n != name && !seen[n] {
+			seen[n] = true
+			out = append(out, n)
+		}
+	}
+	add(path.Clean(name))
+	add(path.Base(name))
+	add(path.Dir(name))
+	for _, seg := range strings.FieldsFunc(name, func(r rune) bool { return r == '/' || r == ':' }) {
+		add(seg)
+	}
+	for _, n := range []string{"0", "1", "a", "b", "default", "ns", "orders", name + "0", name + ".", strings.TrimRight(name, "./")} {
+		add(n)
+	}
+	return out
+}
+
+// c22NamespaceEscape: an accepted topic's objects stay under the (plain) namespace
+func c22NamespaceEscape(ns, t string, p int32) string {
+	if ns == "" {
+		ns = "default"
+	}
+	if strings.ContainsAny(ns, "/.") { // only for plain namespaces (a cleaned or nested one has another base)
+		return ""
+	}
+	k := c22KeysOf(ns, t, p, 0, "g")
+	for _, key := range k.s3[:3] {
+		if !strings.HasPrefix(key, ns+"/") {
+			return fmt.Sprintf("accepted topic (%q,%d) in namespace %q stores object %s outside the namespace, where another namespace's topics live", t, p, ns, key)
+		}
+	}
+	return ""
+}
+
 func c22Classify(cs c22Case, kind string) string {
 	weird := func(t string) bool { return strings.ContainsAny(t, "/") || t == "." || t == ".." }
 	if weird(cs.T1) || weird(cs.T2) {
@@ -209,13 +264,18 @@ func c22Classify(cs c22Case, kind string) string {
 }
 
 func TestVerifC22(t *testing.T) {
-	rep := vNewReport("C22", "pairs of (topic, partition) over an alphabet of valid Kafka names, random valid names up to 251 bytes and names with '/', dot segments, ':', '%', unicode, NUL, empty; namespaces incl. nested, rooted, dotted and empty; base offsets incl. negative and > 2^62; plus path.Join element lists and etcd keys for the two parsers. A pair case is non-trivial when both names are accepted by the real CreateTopic and (t,p) <> (t',p'); distinct = distinct canonical case")
+	rep := vNewReport("C22", "an edge sweep (literal names . .. ... a..b .a a. and 248/249/250-byte names, every single byte outside [A-Za-z0-9._-] alone and inside a name: whatever the real CreateTopic accepts is checked against its likely partners and for staying inside its namespace) and pairs of (topic, partition) over an alphabet of valid Kafka names, random valid names up to 251 bytes and names with '/', dot segments, ':', '%', unicode, NUL, empty; namespaces incl. nested, rooted, dotted and empty; base offsets incl. negative and > 2^62; plus path.Join element lists and etcd keys for the two parsers. A pair case is non-trivial when both names are accepted by the real CreateTopic and (t,p) <> (t',p'); distinct = distinct canonical case")
 	var coq, jsons []string
 	runOne := func(cs c22Case) {
 		canon, _ := json.Marshal(cs)
 		switch cs.Kind {
 		case "pair":
 			key, fail := c22Pair(cs)
+			if fail == "" && cs.T1 == cs.T2 && c22Accepted(cs.T1, 0) {
+				if what := c22NamespaceEscape(cs.NS, cs.T1, 0); what != "" {
+					key, fail = "s3-key-outside-namespace", what
+				}
+			}
 			acc := c22Accepted(cs.T1, cs.P1) && c22Accepted(cs.T2, cs.P2)
 			rep.Count(string(canon), acc && !(cs.T1 == cs.T2 && cs.P1 == cs.P2))
 			if acc {
@@ -274,6 +334,42 @@ func TestVerifC22(t *testing.T) {
 		for _, cs := range corpus {
 			runOne(cs)
 		}
+		// edge sweep: every literal edge name goes through the real CreateTopic; whatever it
+		// accepts is checked for isolation against its likely partners (both partition orders)
+		// and for staying inside its namespace; the verdicts go to the correspondence
+		edge := c22EdgeNames()
+		swept := 0
+		for ei, name := range edge {
+			if ei%23 == int(vSeed()%23) || (len(name) < 3 && name[0] < 0x80 && name[0] >= 0x20) || ei < 22 { // short ones always, the byte family in rotating slices
+				coq = append(coq, c22CoqKeys("default", name, 0, 0, "g"))
+				jsons = append(jsons, fmt.Sprintf(`{"kind":"pair","ns":"default","t1":%q,"t2":%q}`, name, name))
+			}
+			if !c22Accepted(name, 0) {
+				rep.Hist("edge:rejected")
+				continue
+			}
+			rep.Hist("edge:accepted")
+			for _, ns := range []string{"default", "ns"} {
+				if what := c22NamespaceEscape(ns, name, 0); what != "" {
+					cs := c22Case{Kind: "pair", NS: ns, T1: name, T2: name, P2: 1}
+					rep.Fail("s3-key-outside-namespace", c22Classify(cs, "s3-key-outside-namespace"), what, cs)
+				}
+			}
+			for _, partner := range c22Partners(name) {
+				for _, pp := range [][2]int32{{0, 0}, {0, 1}, {1, 0}} {
+					cs := c22Case{Kind: "pair", NS: "default", T1: name, P1: pp[0], T2: partner, P2: pp[1], Group: "g"}
+					swept++
+					if key, fail := c22Pair(cs); fail != "" {
+						rep.Fail(key, c22Classify(cs, key), fail, cs)
+					}
+					cs.T1, cs.T2 = cs.T2, cs.T1
+					if key, fail := c22Pair(cs); fail != "" {
+						rep.Fail(key, c22Classify(cs, key), fail, cs)
+					}
+				}
+			}
+		}
+		rep.Notes = append(rep.Notes, fmt.Sprintf("edge sweep: %d literal edge names, %d isolation pairs over the accepted ones", len(edge), swept))
 		r := vNewRand(vSeed())
 		n := vN(180, 2600)
 		segs := []string{"a", "b", "", ".", "..", "/", "a/b", "a/", "/a", "../", "x.y", "a//b", "...", "ü"}
